@@ -3,6 +3,7 @@ package sim
 import (
 	stded "crypto/ed25519"
 	"fmt"
+	"os"
 	"strings"
 
 	"github.com/tendermint/tendermint/consensus"
@@ -105,7 +106,7 @@ func above23(p, total int64) bool { return p*3 > total*2 }
 
 // holds: were all parts of block id delivered to / emitted by node j before event `before`?
 func (m *Monitor) holds(j int, id types.BlockID, before int) bool {
-	got := map[uint32]bool{}
+	got := map[uint32][]byte{}
 	check := func(p *Packet) {
 		bm, ok := p.Msg.(*consensus.BlockPartMessage)
 		if !ok {
@@ -116,7 +117,7 @@ func (m *Monitor) holds(j int, id types.BlockID, before int) bool {
 			return
 		}
 		if part.Proof.Verify(id.PartSetHeader.Hash, part.Bytes) == nil {
-			got[part.Index] = true
+			got[part.Index] = part.Bytes
 		}
 	}
 	for _, d := range m.net.Deliveries[j] {
@@ -131,22 +132,56 @@ func (m *Monitor) holds(j int, id types.BlockID, before int) bool {
 			check(p)
 		}
 	}
-	return uint32(len(got)) == id.PartSetHeader.Total
+	if uint32(len(got)) != id.PartSetHeader.Total {
+		if os.Getenv("VERIF_DEBUG_MON") != "" {
+			fmt.Printf("DBG holds: node %d id %v: %d of %d parts, deliveries=%d before=%d\n", j, id, len(got), id.PartSetHeader.Total, len(m.net.Deliveries[j]), before)
+		}
+		return false
+	}
+	// the pieces are those the part-set header commits to; "that block" also means: they reassemble to a block with
+	// the hash the vote names
+	var bz []byte
+	for i := uint32(0); i < id.PartSetHeader.Total; i++ {
+		bz = append(bz, got[i]...)
+	}
+	pb := new(tmproto.Block)
+	if err := pb.Unmarshal(bz); err != nil {
+		return false
+	}
+	b, err := types.BlockFromProto(pb)
+	if err != nil {
+		if os.Getenv("VERIF_DEBUG_MON") != "" {
+			fmt.Printf("DBG holds: BlockFromProto: %v\n", err)
+		}
+		return false
+	}
+	if os.Getenv("VERIF_DEBUG_MON") != "" {
+		fmt.Printf("DBG holds: reassembled hash %X, id hash %X\n", b.Hash(), id.Hash)
+	}
+	return string(b.Hash()) == string(id.Hash)
 }
 
-// holdsBlock: the node holds "that block" if it holds every part of it under the part-set header of the vote OR under
-// the header of any proposal for the same block hash that reached it (a faulty proposer may serialise one block in
-// two ways; the block is the same, C02 speaks of the block).
+// holdsBlock: the node holds "that block" if it holds every part of SOME serialisation of it: a complete part set
+// (under the part-set header of the vote or under any other header whose parts reached the node - a faulty proposer
+// may serialise one block in two ways, or state another hash in its proposal than the one of the block it sends) that
+// reassembles to a block with the hash the vote names. C02 speaks of the block.
 func (m *Monitor) holdsBlock(j int, id types.BlockID, before int) bool {
 	if m.holds(j, id, before) {
 		return true
 	}
+	seen := map[string]bool{}
 	try := func(p *Packet) bool {
-		pm, ok := p.Msg.(*consensus.ProposalMessage)
-		if !ok || string(pm.Proposal.BlockID.Hash) != string(id.Hash) || pm.Proposal.BlockID.PartSetHeader.Equals(id.PartSetHeader) {
+		bm, ok := p.Msg.(*consensus.BlockPartMessage)
+		if !ok || bm.Part == nil || bm.Part.Proof.Total <= 0 {
 			return false
 		}
-		return m.holds(j, pm.Proposal.BlockID, before)
+		psh := types.PartSetHeader{Total: uint32(bm.Part.Proof.Total), Hash: bm.Part.Proof.ComputeRootHash()}
+		key := fmt.Sprintf("%d:%X", psh.Total, psh.Hash)
+		if seen[key] || psh.Equals(id.PartSetHeader) {
+			return false
+		}
+		seen[key] = true
+		return m.holds(j, types.BlockID{Hash: id.Hash, PartSetHeader: psh}, before)
 	}
 	for _, d := range m.net.Deliveries[j] {
 		if d.Event >= before {
@@ -157,7 +192,7 @@ func (m *Monitor) holdsBlock(j int, id types.BlockID, before int) bool {
 		}
 	}
 	for _, p := range m.net.Pool {
-		if !p.Byz && p.From == j && p.Kind == "proposal" && try(p) {
+		if !p.Byz && p.From == j && p.Kind == "part" && try(p) {
 			return true
 		}
 	}
@@ -195,6 +230,10 @@ func (m *Monitor) Check() string {
 					return fmt.Sprintf("node %d precommitted block %X in h=%d r=%d without holding all of its parts", j, rec.BlockID.Hash[:4], rec.H, rec.R)
 				}
 			case "prevote":
+				// a prevote for a block is a statement about a block the validator has seen and validated: it holds it
+				if !rec.BlockID.IsZero() && !m.holdsBlock(j, rec.BlockID, rec.Event) {
+					return fmt.Sprintf("node %d prevoted block %X in h=%d r=%d without holding a block with that hash (all parts of it, reassembling to that hash)", j, rec.BlockID.Hash[:4], rec.H, rec.R)
+				}
 				// last precommit for a block in an earlier round of this height
 				var lock *SignRec
 				for k := 0; k < i; k++ {
